@@ -5,6 +5,7 @@ import (
 	"errors"
 	"fmt"
 	"math/rand"
+	"os"
 	"sort"
 	"strings"
 	"sync"
@@ -160,14 +161,22 @@ func TestC18(t *testing.T) {
 	if thorough {
 		rounds = 4000
 	}
+	widen := os.Getenv("VERIF_WIDEN") != ""
+	if widen {
+		rounds = 40000 // an obligation broke: search harder for a concrete race
+	}
 	for k := 0; k < rounds; k++ {
 		set := faults.NewSet(fmt.Sprintf("vc%d_%d", Seed(), k))
 		n1, n2 := int64(r.Intn(6)), int64(r.Intn(4))
 		callers := 1 + r.Intn(24)
+		if widen || k%2 == 1 {
+			// tight races on a nearly exhausted fault overlapped by a second one
+			n1, n2, callers = int64(1+r.Intn(2)), int64(4+r.Intn(8)), 4+r.Intn(10)
+		}
 		var f1, f2 int64
 		set.Add(faults.Description{Operation: "Pull", Parameters: map[string]string{"subscription": "s"}, Count: n1,
 			OnFault: func(d faults.Description, p faults.Parameters) error { atomic.AddInt64(&f1, 1); return firedErr{0} }})
-		two := k%3 == 0
+		two := k%3 == 0 || widen || k%2 == 1
 		if two {
 			set.Add(faults.Description{Operation: "Pull", Parameters: map[string]string{}, Count: n2,
 				OnFault: func(d faults.Description, p faults.Parameters) error { atomic.AddInt64(&f2, 1); return firedErr{1} }})
@@ -176,12 +185,17 @@ func TestC18(t *testing.T) {
 		}
 		var wg sync.WaitGroup
 		var failed, nonMatchingFailed int64
+		var ready int32
 		start := make(chan struct{})
 		for c := 0; c < callers; c++ {
 			wg.Add(1)
 			go func(c int) {
 				defer wg.Done()
 				<-start
+				// spin barrier: all callers enter Check as close together as the cores allow
+				atomic.AddInt32(&ready, 1)
+				for spins := 0; atomic.LoadInt32(&ready) < int32(callers) && spins < 200000; spins++ {
+				}
 				if err := set.Check("Pull", map[string]string{"subscription": "s", "x": fmt.Sprint(c)}); err != nil {
 					atomic.AddInt64(&failed, 1)
 				}
